@@ -40,6 +40,12 @@ FlFC = flat(a:u8,*i:InnerC)
 FlK = flat(a:u8,*i:InnerUS)
 FlMK = flat(a:u8,*m:bmap(string,US))
 FlMC = flat(a:u8,*m:bmap(string,char))
+Hr = newtype(u8)
+InnerB = struct(s:strref,n:u8)
+IntB = internal(t;S{s:strref,n:u8}|U|N(InnerB))
+AdjB = adjacent(t,c;S(strref)|U|N(InnerB))
+UntB = untagged(S{s:strref}|N(u8)|R(strref))
+FlB = flat(a:u8,*i:InnerB)
 |}
 (*FAMILY-END*)
 
